@@ -29,7 +29,7 @@ from lib.harness import Check, Outcome
 PROPERTY = "C14"
 RULE = (
     "Hypothesis histories of <=14 ops over 2-3 workers (shared key, cache capacity 0-3 each, ttl in {2,3,5}): "
-    "init(stream, worker, identity, method), next/cancel(stream, cursor index, worker, presenter identity), "
+    "init(stream, worker, identity, method), next/cancel(stream, cursor index, worker, presenter identity, call token own|altered|other stream's), "
     "advance_clock(0,1,2,ttl-1,ttl,ttl+1), flood(worker,k), incl. 'chase' shapes (clock step, legit turn)* that keep a "
     "stream's cursor fresh while its call token ages.  Each continuation goes to a capacity-0 twin first and the "
     "outcomes are compared.  Non-trivial = some continuation reaches a worker that already served that stream "
@@ -38,8 +38,9 @@ RULE = (
     "histories with forced equal call ids across identities."
 )
 ASSUMPTIONS = [
-    "requests are conformant: every continuation echoes the stream's own call token unchanged (a client that omits or "
-    "alters it is outside this property's request domain; that case is reported under C12)",
+    "a continuation that omits the call token is outside the request domain (docs/WIRE_PROTOCOL.md documents that it works only "
+    "while the cache is warm); continuations that present an altered or another stream's call token are judged by the warm/cold differential only "
+    "(whether they must be refused is C12's statement; that the answer does not depend on the cache is this one's)",
     "the capacity-0 twin worker is the statement's 'worker with an empty cache'; replaying a request to it is side-effect "
     "free because tokens are stateless and the zoo's state scripts are pure",
     "time / os.urandom / uuid.uuid4 read by the token modules are replaced by a logical clock and a SHA-256 counter stream; "
@@ -68,10 +69,17 @@ IDENTS: list[dict[str, Any] | None] = [
 
 _init = st.builds(lambda w, i, m, v: {"op": "init", "w": w, "id": i, "m": m, "var": v},
                  st.integers(0, 2), st.integers(0, len(IDENTS) - 1), st.integers(0, len(METHODS) - 1), st.integers(0, 1))
-_cont_any = st.builds(lambda s, j, w, p, k, v: {"op": "cont", "s": s, "j": j, "w": w, "as": p, "kind": k, "v": v},
+_cont_any = st.builds(lambda s, j, w, p, k, v, ct: {"op": "cont", "s": s, "j": j, "w": w, "as": p, "kind": k, "v": v, "ct": ct},
                       st.integers(0, 3), st.sampled_from([-1, -1, -1, 0, -2]), st.integers(0, 2),
                       st.one_of(st.none(), st.none(), st.none(), st.integers(0, len(IDENTS) - 1)),
-                      st.sampled_from(["next", "next", "next", "cancel"]), st.integers(0, 5))
+                      st.sampled_from(["next", "next", "next", "cancel"]), st.integers(0, 5),
+                      # which call token rides along: the stream's own, its own with one character altered, or another
+                      # stream's — the statement says "any sequence of requests", and whether a presented call token
+                      # is examined must not depend on the cache being warm.  A request that carries NO call token is
+                      # not generated: docs/WIRE_PROTOCOL.md ("Stream exchange") says the client MUST echo it and
+                      # documents that omitting it "still works while that cache is warm; it fails as soon as the
+                      # cache is not" — a stated exception, so flagging it would assert more than the code claims.
+                      st.sampled_from(["own", "own", "own", "flip", "other"]))
 _cont_legit = st.builds(lambda s, w, v: {"op": "cont", "s": s, "j": -1, "w": w, "as": None, "kind": "next", "v": v},
                         st.integers(0, 3), st.integers(0, 2), st.integers(0, 5))
 _clock = st.builds(lambda d: {"op": "clock", "dt": d}, st.sampled_from(["0", "1", "1", "2", "ttl-1", "ttl-1", "ttl", "ttl", "ttl+1"]))
@@ -156,21 +164,37 @@ def do_cont(out: Outcome, h: Hist, op: dict[str, Any], k: int, flags: dict[str, 
     cls = _model_class(rec, j, presenter, now, h.ttl)
     cancel = op["kind"] == "cancel"
     shape = tk.shape_of(rec.method)
-    cold = h.twin.exchange(rec.method, rec.cursors[j].text, rec.call.text, presenter, shape=shape, v=op["v"], cancel=cancel)
-    hot = h.workers[wi].exchange(rec.method, rec.cursors[j].text, rec.call.text, presenter, shape=shape, v=op["v"], cancel=cancel)
+    ct = op.get("ct", "own")
+    call_text: bytes | None = rec.call.text
+    if ct == "omit":
+        call_text = None
+    elif ct == "other":
+        call_text = h.streams[(si + 1) % len(h.streams)].call.text
+    elif ct == "flip":
+        raw = bytearray(rec.call.text)
+        at = (7 + 11 * op["v"]) % len(raw)
+        raw[at] = ord("B") if raw[at] != ord("B") else ord("C")
+        call_text = bytes(raw)
+    if call_text == rec.call.text:
+        ct = "own"
+    cold = h.twin.exchange(rec.method, rec.cursors[j].text, call_text, presenter, shape=shape, v=op["v"], cancel=cancel)
+    hot = h.workers[wi].exchange(rec.method, rec.cursors[j].text, call_text, presenter, shape=shape, v=op["v"], cancel=cancel)
     cap = h.workers[wi].cache
     warm = wi in h.touched[si] and cap > 0
     oc, oh = _outcome(cold), _outcome(hot)
-    out.label(f"class={cls}", f"cold={oc[0]}", f"hot={oh[0]}", f"cap={cap}", "warm" if warm else "not_warm", f"kind={op['kind']}")
-    if warm and (now - rec.call.minted_at >= h.ttl or cls == "identity"):
+    out.label(f"class={cls}", f"cold={oc[0]}", f"hot={oh[0]}", f"cap={cap}", "warm" if warm else "not_warm", f"kind={op['kind']}",
+              f"call_token={ct}" + ("/warm" if warm else ""))
+    if warm and (now - rec.call.minted_at >= h.ttl or cls == "identity" or ct != "own"):
         flags["nontrivial"] = True
     ctx = (f"op[{k}] {op['kind']} of {rec.sid}({rec.method}) cursor[{j}] on worker {wi} (capacity {cap}, {'warm' if warm else 'cold'}) "
            f"at t0+{now - tk.T0}, call token age {now - rec.call.minted_at}, cursor age {now - rec.cursors[j].minted_at}, ttl {h.ttl}")
     if oc != oh:
         out.fail(
-            f"outcome_differs/{oh[0]}/{oc[0]}/{cls}",
-            f"{ctx}: worker answered {oh!r} but an empty-cache worker answers {oc!r}",
+            f"outcome_differs/{oh[0]}/{oc[0]}/{cls if ct == 'own' else 'call_token:' + ct}",
+            f"{ctx}; call token presented: {ct}: worker answered {oh!r} but an empty-cache worker answers {oc!r}",
         )
+    if ct != "own":
+        return  # a non-conformant presentation is judged by the differential only (what it *should* answer is C12's)
     # the bookkeeping model, where it is decisive
     if cls == "valid" and oc[0] != "served":
         out.fail(f"cold_rejects_valid/{op['kind']}", f"{ctx}: empty-cache worker refused a conformant in-TTL request: {oc!r}")
